@@ -202,7 +202,8 @@ def prepare(tier, seed):
     rng = random.Random(seed * 65537 + 12)
     nprog = 3 if tier == "quick" else 16
     size = 6 if tier == "quick" else 9
-    programs = [progen.gen_program(rng, "p%d" % i, i, rng.randrange(size - 2, size + 3)) for i in range(nprog)]
+    # binary names carry tier and seed: all crates share one target directory, and cargo uplifts binaries by name
+    programs = [progen.gen_program(rng, "%s%dp%d" % (tier[0], seed, i), i, rng.randrange(size - 2, size + 3)) for i in range(nprog)]
     tag = "shared-%s-%d%s" % (tier, seed, build._suffix())
     d = gen_dir(tag)
     same = os.path.isdir(d) and all(os.path.exists(os.path.join(d, P.file)) and open(os.path.join(d, P.file)).read() == P.source for P in programs)
@@ -236,7 +237,17 @@ def check(prop, tier, seed, out):
     nprog = len(programs)
     agg = {}
     if rc != 0:
-        # a generated program that does not compile is a harness problem (or a macro rejecting valid input)
+        # The generated programs are valid (they build against the pinned tree). A compiler error located in a generated file, or
+        # raised while expanding / evaluating divan's macros for it, means a written item cannot be registered at all.
+        import re as _re
+        rejected = _re.search(r"(src/bin/[qt]\d+p\d+\.rs|could not compile `vgen`)", log) and "error" in log and "could not compile `divan" not in log
+        if rejected and prop == "C12":
+            m = _re.search(r"error(\[E\d+\])?: ([^\n]*)", log)
+            first = m.group(2) if m else "compile error"
+            out.evaluations += 1
+            out.violation("C12:generated_program_rejected", "a generated program using only documented attribute forms no longer compiles: %s" % first[:300],
+                          {"engine": "generated-crate", "log": log[-4000:]})
+            return
         out.inconclusive_shard("generated crate failed to build: %s" % log[-1500:].replace("\n", " | "))
         out.require("crate_built", 0, 1)
         return
